@@ -240,7 +240,11 @@ CLAIMS["C09"] = {
 }
 
 CLAIMS["C05"] = {
-    "text": "Twenty-seven Coq theorems (Props/C05.v). C05_encode_succeeds: every well-formed message value whose uncompressed size "
+    "text": "Twenty-seven Coq theorems (Props/C05.v). C05_output_is_legal_rendering: the encoder's output for a well-formed message is one of the legal wire "
+            "renderings of that message as defined declaratively from the RFCs in Spec/Render.v (labels in their own case, each "
+            "name cut by a backward pointer to an earlier occurrence within 16 hops, addresses cut at zero octets only, SvcParams "
+            "in key order, mandatory keys sorted); hence (C04_render_accepted) the independent reference decoder reads it back - "
+            "a second route to C05_reference_reads_back. C05_encode_succeeds: every well-formed message value whose uncompressed size "
             "(Spec/USize.v, defined on the value alone) fits in 65,535 octets encodes; C05_encode_fails_only_by_size: otherwise "
             "the only possible failure is Length with an uncompressed size above the limit; the output is never longer than the "
             "uncompressed size. C05_roundtrip: for every well-formed message value (dns_wf: the per-type wire "
